@@ -1,2 +1,3 @@
 import Fv.Driver.Chan
-def main : IO UInt32 := Fv.Driver.runEngine Fv.Driver.Chan.engine
+def main (args : List String) : IO UInt32 :=
+  Fv.Driver.runEngine (Fv.Driver.Chan.engine (args.contains "--liveness"))
